@@ -10,13 +10,24 @@ KF_SECANCHOR = 'sec-codon-touched-by-anchor-unlabelled-stop'
 KF_NOLA_MISC = 'no-lookahead-enzyme-miscleaved-missing'
 
 
-def all_miscleaved(enz: str, peptides) -> bool:
-    """every peptide has a cleavage site of the enzyme's rule strictly inside"""
+def all_miscleaved(enz: str, peptides, w2f: bool = False) -> bool:
+    """every peptide has a cleavage site of the enzyme's rule strictly inside; with W>F
+    reassignment on, a peptide also counts when it is the W>F image of such a peptide of the
+    same set (the tool derives the images from the peptide it did not report)"""
     import re as _re
     rule = cv_checks.rule_tables()[enz]
+
+    def misc(p):
+        return any(0 < m.end() < len(p) for m in _re.finditer(rule, p))
+    peptides = list(peptides)
     for p in peptides:
-        if not any(0 < m.end() < len(p) for m in _re.finditer(rule, p)):
-            return False
+        if misc(p):
+            continue
+        if w2f and any(len(q) == len(p) and q != p and misc(q)
+                       and all(a == b or (a == 'W' and b == 'F') for a, b in zip(q, p))
+                       for q in peptides):
+            continue
+        return False
     return True
 
 
@@ -89,7 +100,8 @@ def judge(ctx, res, stream):
                       else (KF_SECANCHOR if sec_anchor_only(r, sorted(core_missing))
                             else (KF_NOLA_MISC if (not cv_checks.has_lookahead(r['desc']['kw']['cleavage_rule'])
                                                    and not (real - (SA | SB))
-                                                   and all_miscleaved(r['desc']['kw']['cleavage_rule'], core_missing))
+                                                   and all_miscleaved(r['desc']['kw']['cleavage_rule'], core_missing,
+                                                                      bool(r['desc']['kw'].get('w2f_reassignment'))))
                                   else None))))
         elif exc_missing:
             ctx.add_violation(
